@@ -423,6 +423,36 @@ RECV = {
 SKIP_TRAITS = ('Debug', 'PartialEq', 'Eq', 'From', 'Drop', 'StructuralPartialEq')
 
 
+def drops_read_nothing(ctx, rule='C14.drop-reads-no-map'):
+    """a handle may legally be *dropped* after its transaction has ended (`let h; { let tx = ..; h = tx.get_bucket(..)?; }` type-checks: nothing with a destructor borrows the
+    transaction).  So the destructors of everything a client can hold -- all Drop impls except the transaction's own -- must not look at the mapped file: by then the pages may
+    have been freed and reused"""
+    res = []
+    F = ctx.facts
+    try:
+        mv = ctx.need('map-view')[0]
+    except AnchorError as e:
+        return [unresolved(rule, str(e))]
+    drops = [g for g in F.fns if g.trait and g.trait.endswith('Drop') and g.name == 'drop']
+    f = floor(rule, 'Drop impls in the crate', len(drops), 1)
+    if f:
+        res.append(f)
+    txi = ctx.facts.adt('TxInner')
+    n = 0
+    for g in drops:
+        if g.self_adt and txi and g.self_adt == txi['path']:
+            continue        # the transaction itself: it is what ends the snapshot
+        n += 1
+        reach = F.reachable_fns([g])
+        if mv in reach:
+            res.append(bad(rule, '%s | reads the map' % g.qual,
+                           '%s can reach %s: a value of this type that is dropped after its transaction (which the borrow checker allows) then reads pages that a later '
+                           'commit may already have reused' % (g.qual, mv.qual), where='%s:%d' % (g.file, g.line)))
+    if not any(not r.ok for r in res):
+        res.append(ok(rule, 'no destructor other than the transaction\'s own reaches the map view (%d Drop impls, %d examined)' % (len(drops), n), sites=len(drops)))
+    return res
+
+
 def classify_output(ctx, fn, R, borrowing):
     """'bounded' : some output region is (bounded by) the transaction borrow  -> keeping the result past the transaction must be rejected
        'plain'   : the output mentions no region at all                          -> must compile
@@ -545,6 +575,7 @@ def run(ctx, tier):
     results += sig_rule(ctx)
     results += private_producers(ctx)
     results += type_facts(ctx)
+    results += drops_read_nothing(ctx)
     import c03
     results += c03.snapshot_fixed(ctx, rule='C14.snapshot-fixed')
     ctx.stats['witness_programs'] = len(rows)
